@@ -79,3 +79,99 @@ func DriveShared(ti, k, m int) {
 	}
 	rt.AssertDisjointFootprints(1430)
 }
+
+// echo yields what it received (plus base) three times; a relay drives an inner echo by MoveNext
+// from inside its own step, the way a delegating generator advances its delegate.
+func echo(base int) seq.Seq[int] {
+	var loop func(last, i int) seq.Seq[int]
+	loop = func(last, i int) seq.Seq[int] {
+		if i == 3 {
+			return seq.Normal[int]()
+		}
+		return seq.BindRecv(base+last, func(recv int) seq.Seq[int] { return loop(recv, i+1) })
+	}
+	return seq.Delay(func() seq.Seq[int] { return loop(0, 0) })
+}
+
+func relay(base int) seq.Seq[int] {
+	return seq.Delay(func() seq.Seq[int] {
+		inner := seq.Start(echo(base + 100))
+		var loop func(i int) seq.Seq[int]
+		loop = func(i int) seq.Seq[int] {
+			if i == 3 || !inner.MoveNext() {
+				return seq.Normal[int]()
+			}
+			return seq.BindRecv(inner.Current(), func(recv int) seq.Seq[int] { return loop(i + 1) })
+		}
+		return loop(0)
+	})
+}
+
+// DriveSend: iterator 0 is driven with Send (symbolic values), iterator 1 with MoveNext; both
+// solo and under every interleaving. A value in flight must reach the generator it was sent to
+// and nobody else - not another top-level iterator, not an iterator advanced inside the step.
+func DriveSend(which, m int) {
+	a, b := rt.NondetInt(1), rt.NondetInt(2)
+	sent := make([]int, 2*m)
+	for i := range sent {
+		sent[i] = rt.NondetInt(3)
+	}
+	mk := func(i int) seq.Generator[int] {
+		if i == 0 {
+			if which == 0 {
+				return seq.Start(echo(a)).(seq.Generator[int])
+			}
+			return seq.Start(relay(a)).(seq.Generator[int])
+		}
+		return seq.Start(echo(b)).(seq.Generator[int])
+	}
+	step := func(i int, it seq.Generator[int], s int) {
+		if i == 0 {
+			if v, ok := it.Send(sent[s]); ok {
+				rt.Emit(rt.YIELD, v)
+			} else {
+				rt.Emit(rt.ADV_END, 0)
+			}
+			return
+		}
+		if it.MoveNext() {
+			rt.Emit(rt.YIELD, it.Current())
+		} else {
+			rt.Emit(rt.ADV_END, 0)
+		}
+	}
+	for i := 0; i < 2; i++ {
+		rt.SetLog(i)
+		it := mk(i)
+		for s := 0; s < m; s++ {
+			step(i, it, s)
+		}
+	}
+	var its [2]seq.Generator[int]
+	var done [2]int
+	for i := 0; i < 2; i++ {
+		rt.Actor(i + 1)
+		its[i] = mk(i)
+		rt.Actor(0)
+	}
+	for t := 0; t < 2*m; t++ {
+		i := 0
+		switch {
+		case done[0] == m:
+			i = 1
+		case done[1] == m:
+			i = 0
+		default:
+			i = rt.Choose(7, 2)
+		}
+		rt.SetLog(10 + i)
+		rt.Actor(i + 1)
+		step(i, its[i], done[i])
+		rt.Actor(0)
+		done[i]++
+	}
+	rt.SetLog(0)
+	rt.AssertSameLogs(0, 10, 1440)
+	rt.AssertSameLogs(1, 11, 1441)
+	rt.AssertDisjointFootprints(1442)
+}
